@@ -5,11 +5,16 @@ TARGET = os.path.join(ROOT, '.cache', 'replay-target')
 MANIFEST = os.path.join(ROOT, 'replay', 'Cargo.toml')
 # development aid: VERIF_REPO / VERIF_CACHE point the whole pipeline (MIR dump and replay) at another checkout
 if os.environ.get('VERIF_REPO') and os.environ.get('VERIF_CACHE'):
-    import shutil
+    import shutil, filecmp
     _alt = os.path.join(os.environ['VERIF_CACHE'], 'replay')
-    shutil.rmtree(_alt, ignore_errors=True); shutil.copytree(os.path.join(ROOT, 'replay'), _alt, ignore=shutil.ignore_patterns('target'))
-    _t = open(os.path.join(_alt, 'Cargo.toml')).read().replace('path = "/repo"', 'path = "%s"' % os.environ['VERIF_REPO'])
-    open(os.path.join(_alt, 'Cargo.toml'), 'w').write(_t)
+    _src = os.path.join(ROOT, 'replay')
+    def _same():
+        try: return filecmp.cmp(os.path.join(_src, 'src', 'main.rs'), os.path.join(_alt, 'src', 'main.rs'), shallow=False) and os.path.exists(os.path.join(_alt, 'Cargo.toml'))
+        except OSError: return False
+    if not _same():
+        shutil.rmtree(_alt, ignore_errors=True); shutil.copytree(_src, _alt, ignore=shutil.ignore_patterns('target'))
+        _t = open(os.path.join(_alt, 'Cargo.toml')).read().replace('path = "/repo"', 'path = "%s"' % os.environ['VERIF_REPO'])
+        open(os.path.join(_alt, 'Cargo.toml'), 'w').write(_t)
     MANIFEST = os.path.join(_alt, 'Cargo.toml'); TARGET = os.path.join(os.environ['VERIF_CACHE'], 'replay-target')
 _built = {}
 
